@@ -312,6 +312,10 @@ func (c *Controller) expireReservation(reservation *schedulingv1alpha1.Reservati
 
 func (c *Controller) syncAssignedReservation(reservation *schedulingv1alpha1.Reservation) error {
 	if reservation.Status.NodeName == "" {
+		// not scheduled yet: there is nothing to account, but the reservation still expires (spec.ttl / spec.expires)
+		if isReservationNeedExpiration(reservation) {
+			return c.expireReservation(reservation)
+		}
 		return nil
 	}
 	// use a pods snapshot to avoid the inconsistency between pods and reservation status
